@@ -154,6 +154,11 @@ fn tokens(s: &str) -> Vec<String> {
     out
 }
 
+/// Texts longer than this (in characters) are not sent to the CST model.
+const CST_LIMIT: usize = 16_000;
+/// … and the (well-formed) output of tftopl only up to this length.
+const CST_LIMIT_TFTOPL: usize = 3_000;
+
 /// Texts with more unclosed '(' than this are run in a child process.
 const NEST_LIMIT: usize = 20_000;
 
@@ -298,6 +303,122 @@ fn real_pltotf(text: &str) -> (Vec<u8>, usize, Option<String>) {
         }
     }
     (bytes, warnings.len(), msg_panic)
+}
+
+/// The counts of a real `tfm::File` that determine its size table (`C10.FileShape`), as the
+/// argument list of the driver's `ser` request, and the first 24 bytes `serialize` writes
+/// (or its panic). `pl_to_tfm` is replayed step by step through the same public functions:
+/// `pl::File::from_pl_source_code`, `From<pl::File> for tfm::File`, `File::serialize`.
+fn real_shape(text: &str) -> (String, Result<Vec<u8>, String>) {
+    let (pl_file, _) = tfm::pl::File::from_pl_source_code(text);
+    let steps = pl_file.lig_kern_program.instructions.len();
+    let file: tfm::File = pl_file.into();
+    let (has, bc, ec) = match (file.char_dimens.keys().next(), file.char_dimens.keys().next_back()) {
+        (Some(b), Some(e)) => (1, b.0 as usize, e.0 as usize),
+        _ => (0, 0, 0),
+    };
+    let nl = file.lig_kern_program.instructions.len();
+    let shape = format!(
+        "{} {has} {bc} {ec} {} {} {} {} {} {} {} {} {}",
+        file.header.additional_data.len(),
+        file.widths.len(),
+        file.heights.len(),
+        file.depths.len(),
+        file.italic_corrections.len(),
+        steps.min(nl),
+        nl - steps.min(nl),
+        file.kerns.len(),
+        file.extensible_chars.len(),
+        file.params.len()
+    );
+    let bytes = caught(|| file.serialize());
+    (shape, bytes)
+}
+
+/// The real `Cst::from_pl_source_code`, encoded exactly like `DrvC10.handleCst`'s reply.
+fn real_cst(text: &str) -> String {
+    use tfm::pl::cst::{Cst, Node};
+    use tfm::pl::ParseWarningKind as K;
+    fn chars(s: &str, out: &mut Vec<u64>) {
+        out.push(s.chars().count() as u64);
+        out.extend(s.chars().map(|c| c as u64));
+    }
+    fn nodes(ns: &[Node], out: &mut Vec<u64>) {
+        // explicit stack: the tree can be 20 000 levels deep
+        enum W<'a> {
+            N(&'a Node),
+        }
+        let mut stack: Vec<W> = ns.iter().rev().map(W::N).collect();
+        while let Some(W::N(n)) = stack.pop() {
+            match n {
+                Node::Comment(t) => {
+                    out.push(0);
+                    chars(t, out);
+                }
+                Node::Regular(r) => {
+                    out.extend([
+                        1,
+                        r.opening_parenthesis_span.start as u64,
+                        r.key_span.start as u64,
+                        r.key_span.end as u64,
+                        r.data_span.start as u64,
+                        r.data_span.end as u64,
+                        r.closing_parenthesis_span.start as u64,
+                        r.closing_parenthesis_span.end as u64,
+                    ]);
+                    if r.opening_parenthesis_span.end != r.opening_parenthesis_span.start + 1 {
+                        out.push(77777777);
+                    }
+                    chars(&r.key, out);
+                    match &r.data {
+                        Some(d) => chars(d, out),
+                        None => out.push(99999999),
+                    }
+                    match &r.children {
+                        Some(c) => {
+                            out.push(c.len() as u64);
+                            for ch in c.iter().rev() {
+                                stack.push(W::N(ch));
+                            }
+                        }
+                        None => out.push(99999999),
+                    }
+                }
+            }
+        }
+    }
+    let (Cst(tree), warnings) = Cst::from_pl_source_code(text);
+    let mut out: Vec<u64> = vec![tree.len() as u64];
+    nodes(&tree, &mut out);
+    out.push(warnings.len() as u64);
+    for w in &warnings {
+        let off = w.knuth_pltotf_offset.map(|x| x as u64).unwrap_or(88888888);
+        match &w.kind {
+            K::UnbalancedOpeningParenthesis { opening_parenthesis_span: o } => {
+                out.extend([0, w.span.start as u64, o.start as u64]);
+                if w.span.end != w.span.start || o.end != o.start + 1 || off != w.span.start as u64 {
+                    out.push(77777777);
+                }
+            }
+            K::UnexpectedClosingParenthesis => {
+                out.extend([1, w.span.start as u64]);
+                if w.span.end != w.span.start + 1 || off != w.span.start as u64 {
+                    out.push(77777777);
+                }
+            }
+            K::JunkInsidePropertyList { junk } => {
+                out.extend([2, w.span.start as u64, w.span.end as u64]);
+                chars(junk, &mut out);
+                if off != w.span.start as u64 + 1 {
+                    out.push(77777777);
+                }
+            }
+            _ => out.push(9),
+        }
+    }
+    // the tree is dropped here: deep trees are dropped recursively by the compiler-generated
+    // Drop (that is C10-i); callers bound the nesting depth
+    join(&out)
 }
 
 struct Clamp {
@@ -715,7 +836,52 @@ impl C10 {
         }
     }
 
+    /// The PL lexer / CST builder against the Lean model `Cst.cstModel` (tree shape, keys,
+    /// data, every span, every warning).
+    fn check_cst(&mut self, text: &str, drv: &mut Driver, out: &mut CaseOutcome, stage: &str) {
+        let n_chars = text.chars().count();
+        if n_chars > CST_LIMIT || (stage.starts_with("tftopl") && n_chars > CST_LIMIT_TFTOPL) {
+            out.tag(format!("{stage}cst:skipped-long"));
+            return;
+        }
+        let mut extra: Vec<u32> = text.chars().filter(|c| !c.is_ascii() && c.is_alphanumeric()).map(|c| c as u32).collect();
+        extra.sort();
+        extra.dedup();
+        let mut req = format!("cst {}", extra.len());
+        for e in &extra {
+            req.push_str(&format!(" {e}"));
+        }
+        for c in text.chars() {
+            req.push_str(&format!(" {}", c as u32));
+        }
+        let m = drv.ask(&req);
+        match caught(|| real_cst(text)) {
+            Err(p) => out.fail(Kind::ImplPanic, &format!("{stage}cst"), format!("panic {}", strip_msg(&p)), format!("Cst::from_pl_source_code panicked: {p}")),
+            Ok(i) => {
+                out.tag(format!("{stage}cst:compared"));
+                if m == "outoffuel" {
+                    out.fail(Kind::ModelVsSpec, &format!("{stage}cst"), "cst model ran out of fuel", String::new());
+                } else if i != m {
+                    // where do they part?
+                    let (a, b): (Vec<&str>, Vec<&str>) = (i.split(' ').collect(), m.split(' ').collect());
+                    let k = a.iter().zip(b.iter()).take_while(|(x, y)| x == y).count();
+                    out.fail(
+                        Kind::ImplVsModel,
+                        &format!("{stage}cst"),
+                        "cst differs from cstModel",
+                        format!("first difference at field {k}: impl …{} model …{}", a[k.saturating_sub(6)..(k + 6).min(a.len())].join(" "), b[k.saturating_sub(6)..(k + 6).min(b.len())].join(" ")),
+                    );
+                }
+            }
+        }
+    }
+
     fn check_text(&mut self, text: &str, drv: &mut Driver, out: &mut CaseOutcome, stage: &str) {
+        if max_depth(text) <= NEST_LIMIT {
+            let t0 = std::time::Instant::now();
+            self.check_cst(text, drv, out, stage);
+            *self.seconds.entry("part:cst".into()).or_insert(0.0) += t0.elapsed().as_secs_f64();
+        }
         let (bytes, n_warn) = match caught(|| real_pltotf(text)) {
             Ok((b, n, None)) => (b, n),
             Ok((b, n, Some(p))) => {
@@ -740,6 +906,48 @@ impl C10 {
             }
         };
         out.tag(format!("{stage}pltotf:{}", if n_warn == 0 { "clean" } else { "warnings" }));
+        // The serialiser's size table: real counts -> Lean `serializeSizes` (M) vs the twelve
+        // words really written (I); and the hypotheses `ShapeOK` of `serialize_consistent` /
+        // `raw_accepts_serialized` must hold on every real file.
+        let t_shape = std::time::Instant::now();
+        let shape_res = caught(|| real_shape(text));
+        *self.seconds.entry("part:shape".into()).or_insert(0.0) += t_shape.elapsed().as_secs_f64();
+        if let Ok((shape, ser)) = shape_res {
+            let m = drv.ask(&format!("ser {shape}"));
+            let (m_out, viol) = m.rsplit_once(" viol=").unwrap_or((&m, "?"));
+            if viol != "0" {
+                out.fail(
+                    Kind::ImplVsModel,
+                    &format!("{stage}ser"),
+                    format!("ShapeOK clause {viol} does not hold on a real file"),
+                    format!("shape (headerExtra hasChars bc ec nw nh nd ni steps added nk ne np): {shape}\nmodel: {m}"),
+                );
+            } else {
+                out.tag(format!("{stage}ser:shape-ok"));
+            }
+            let i_out = match &ser {
+                Ok(b) if b.len() >= 24 => format!("ok {}", join(&(0..12).map(|k| header_word(b, k)).collect::<Vec<_>>())),
+                Ok(_) => "short".to_string(),
+                Err(_) => "panic".to_string(),
+            };
+            let agree = if i_out == "panic" { m_out.starts_with("panic") } else { i_out == m_out };
+            if !agree {
+                out.fail(
+                    Kind::ImplVsModel,
+                    &format!("{stage}ser"),
+                    "size table written by serialize differs from serializeSizes",
+                    format!("shape: {shape}\nimpl:  {i_out}\nmodel: {m_out}"),
+                );
+            }
+            if let Ok(b) = &ser {
+                if *b != bytes {
+                    out.fail(Kind::ImplVsModel, &format!("{stage}ser"), "stepwise conversion differs from pl_to_tfm", String::new());
+                }
+                if b.len() >= 24 && b.len() as i64 != 4 * header_word(b, 0) {
+                    out.fail(Kind::ImplVsSpec, &format!("{stage}ser"), "serialized length is not 4*lf", format!("{} bytes, lf {}", b.len(), header_word(b, 0)));
+                }
+            }
+        }
         // S: the output is accepted — by the Lean model of the reader (computed by Lean) …
         let n = bytes.len().min(24);
         let m = drv.ask(&format!("raw {} {}", bytes.len(), join(&bytes[..n])));
@@ -1040,7 +1248,7 @@ impl Property for C10 {
     }
     fn rule(&self) -> String {
         "hs/h: every value of each of the twelve header words (all 2^16 in thorough; stride 64 plus 48 consecutive values at 0, 232, 32744 and 65488 in quick; one hs case = one sweep of up to 256 values, the number of values is in extra.header_word_values_evaluated_in_hs_sweeps) against five base files \
-         (16-byte, 24-byte, minimal consistent 48-byte, a 72-byte consistent file with junk, a 131 068-byte file with lf=32767: stride 8 there except lf and nw), hc: every word of two consistent tables swept with lf and the file length following (0..128 dense in quick, 0..1024 in thorough, sparse to 2^16); then random consistent size tables with random bodies and random 1-3-word damage; \
+         (16-byte, 24-byte, minimal consistent 48-byte, a 72-byte consistent file with junk, a 131 068-byte file with lf=32767: stride 8 there except lf and nw), hc: every word of two consistent tables swept with lf and the file length following (0..64 dense in quick, 0..1024 in thorough, sparse to 2^16); then random consistent size tables with random bodies and random 1-3-word damage; \
          t: every corpus .tfm under crates/tfm*/ — all truncation lengths that are multiples of 4 around every sub-file boundary plus random ones, random single-byte and header-word mutations; \
          p: every corpus .plst/.pl — random token mutations (paren deletion/insertion, out-of-range and huge numbers, keyword swaps, undeclared characters in labels, cuts, deep nesting, repeats); \
          pt: random small property lists from the grammar with deliberate violations; pg: property lists built from counts so that every sub-file count (nw, nh, nd, ni, ne, np, lh, nl, nk, redirect words, bc/ec) sits at and just beyond its format limit, alone, all together, with random combinations, and with lig/kern tables that push lf to and past 2^15 words. Every tftopl output is fed to pltotf and every pltotf output to the reader and tftopl. \
@@ -1155,14 +1363,14 @@ impl Property for C10 {
         for (fill, words) in [(0u64, [12i64, 2, 1, 0, 1, 1, 1, 1, 0, 0, 0, 0]), (11, [26, 3, 65, 70, 3, 2, 2, 2, 2, 1, 1, 1])] {
             let hexbase = hex(&header_from(&words));
             for w in 1..12 {
-                let top = if th { 1024 } else { 128 };
+                let top = if th { 1024 } else { 64 };
                 let mut start = 0;
                 while start < top {
                     v.push(format!("hc 24 {fill} {hexbase} {w} {start} 64 1"));
                     start += 64;
                 }
                 // sparse up to and past 2^15
-                v.push(format!("hc 24 {fill} {hexbase} {w} {} 64 {}", top, if th { 97 } else { 509 }));
+                v.push(format!("hc 24 {fill} {hexbase} {w} {} {} {}", top, if th { 64 } else { 20 }, if th { 97 } else { 1621 }));
                 for b in [32700usize, 65500] {
                     v.push(format!("hc 24 {fill} {hexbase} {w} {b} {} 1", if th { 36 } else { 8 }));
                 }
